@@ -2,6 +2,7 @@
 //! tvh — the runtime-monitoring harness for Keats/tera. One sub-command per property; see /verif/DESIGN.md.
 mod core;
 mod model;
+mod monitors;
 mod props;
 mod values;
 
